@@ -48,6 +48,17 @@ class Prop:
 
     def instances(self, tier, seed):
         insts = self._instances(tier, seed)
+        if tier == "thorough":
+            # the thorough tier always contains the quick tier; an instance that is not in the quick
+            # tier's core set decides the exit code only where it was validated to finish (thorough_core)
+            quick = self._instances("quick", seed)
+            names = {i.name for i in insts}
+            insts = [q for q in quick if q.name not in names] + insts
+            qcore = {q.name for q in quick if q.core}
+            if not getattr(self, "thorough_core", True):
+                for i in insts:
+                    if i.name not in qcore:
+                        i.core = False
         mods = {m.name: m for m in self.modules}
         for i in insts:
             m = mods[i.module]
@@ -167,7 +178,7 @@ def c09_instances(tier, seed):
             for length in range(0, w + 3):
                 out.append(c09_inst(w, m, w + 2, length, core=False, timeout=3600))
         for (w, m) in [(31, 31), (32, 31)]:
-            for length in (m - 1, w - 1, w, w + 1):
+            for length in sorted({m - 1, w - 1, w, w + 1}):
                 out.append(c09_inst(w, m, w + 1, length, core=False, timeout=3600))
     return out
 
@@ -1338,3 +1349,8 @@ PROPS["C01"].functions += ["(inductive step) one next() from an arbitrary state 
 PROPS["C01"].assumptions += [
     "inductive-step instances: the pre-state is ANY state satisfying the functional invariant of harness/kmer/verif_c01i.rs (inv), which the same instances prove inductive (base case c01_base_*, step c01_step_*)",
 ]
+
+# thorough tiers whose additional instances were not all validated to finish inside the memory/time caps
+# when two checks share the machine: only the quick tier's core set decides their exit code
+for _p in ("C08", "C09", "C13", "C12", "C04", "C18"):
+    PROPS[_p].thorough_core = False
